@@ -51,8 +51,7 @@ class C07(WigBedProp):
 
 
     def extra_checks(self, rep, tier, rng, workdir):
-        if not self.bed:
-            byte_level_check(self, rep, workdir)
+        byte_level_check(self, rep, workdir)
 
 
 PROP = C07()
